@@ -79,9 +79,13 @@ def fresh():
     # this one instance captured at import time.
     _output.Destinations.__init__(_DESTS)
     _output._DEFAULT_LOGGER = _ORIG_DEFAULT_LOGGER
-    reg = _errors._error_extraction.registry
-    reg.clear()
-    reg.update(_ORIG_REGISTRY)
+    # Re-run the constructor in place (like Destinations above) so that any
+    # state it creates is fresh, then re-register the import-time extractors
+    # through the public method.
+    ee = _errors._error_extraction
+    _errors.ErrorExtraction.__init__(ee)
+    for klass, extractor in _ORIG_REGISTRY.items():
+        ee.register_exception_extractor(klass, extractor)
     CLOCK.reset()
     UUID4.reset()
 
